@@ -4,8 +4,8 @@ use super::c09::*;
 use crate::engine::*;
 use crate::tape::Tape;
 
-pub const QUICK_CASES: u64 = 34_000;
-pub const THOROUGH_CASES: u64 = 2_800_000;
+pub const QUICK_CASES: u64 = 300_000;
+pub const THOROUGH_CASES: u64 = 10_000_000;
 
 // ------------------------------------------------------------------------------------------------
 // byte strings
